@@ -39,24 +39,24 @@ type GCA struct {
 
 // GRun is one invocation of gensign.
 type GRun struct {
-	LogName   string               `json:"logname"`
-	ReqUser   string               `json:"req_user"`
-	ReqHost   string               `json:"req_host"`
-	IP        string               `json:"ip"`
-	Policy    string               `json:"policy"`
-	HardKey   bool                 `json:"hard_key"`
-	CAAlgo    int                  `json:"ca_algo"` // -1: field omitted
-	Legacy    bool                 `json:"legacy"`
-	Handlers  []string             `json:"handlers"` // "regular" | "stub:<auth>" with auth in ok|fail|panic
-	Agent     string               `json:"agent"`    // behaviour on sign requests
-	Faults    []refagent.PeerFault `json:"faults,omitempty"`
-	CA        GCA                  `json:"ca"`
-	StubPanic string               `json:"stub_panic,omitempty"` // Name|Generate|CSRs|AddCertsToAgent of the selected stub
-	StubCSRs  int                  `json:"stub_csrs"`            // CSRs per agent key of stub handlers
-	StubKeys  int                  `json:"stub_keys,omitempty"`  // agent keys returned by a stub handler (0 means 1)
-	StubAddFail int                `json:"stub_add_fail,omitempty"` // 1-based index of the stub agent key whose AddCertsToAgent fails (0: none)
-	SSHVer    string               `json:"ssh_ver,omitempty"`    // client-declared SSH version ("" means 8.1)
-	AdvanceS  int64                `json:"advance_s"`
+	LogName     string               `json:"logname"`
+	ReqUser     string               `json:"req_user"`
+	ReqHost     string               `json:"req_host"`
+	IP          string               `json:"ip"`
+	Policy      string               `json:"policy"`
+	HardKey     bool                 `json:"hard_key"`
+	CAAlgo      int                  `json:"ca_algo"` // -1: field omitted
+	Legacy      bool                 `json:"legacy"`
+	Handlers    []string             `json:"handlers"` // "regular" | "stub:<auth>" with auth in ok|fail|panic
+	Agent       string               `json:"agent"`    // behaviour on sign requests
+	Faults      []refagent.PeerFault `json:"faults,omitempty"`
+	CA          GCA                  `json:"ca"`
+	StubPanic   string               `json:"stub_panic,omitempty"`    // Name|Generate|CSRs|AddCertsToAgent of the selected stub
+	StubCSRs    int                  `json:"stub_csrs"`               // CSRs per agent key of stub handlers
+	StubKeys    int                  `json:"stub_keys,omitempty"`     // agent keys returned by a stub handler (0 means 1)
+	StubAddFail int                  `json:"stub_add_fail,omitempty"` // 1-based index of the stub agent key whose AddCertsToAgent fails (0: none)
+	SSHVer      string               `json:"ssh_ver,omitempty"`       // client-declared SSH version ("" means 8.1)
+	AdvanceS    int64                `json:"advance_s"`
 	// further client claims carried by the command text: none of them may influence the signing request
 	Touch2SSH   bool   `json:"touch2ssh,omitempty"`
 	Firefighter bool   `json:"firefighter,omitempty"`
